@@ -108,32 +108,38 @@ def sech(ctx, z): return ctx.one / ctx.cosh(z)
 @defun_wrapped
 def csch(ctx, z): return ctx.one / ctx.sinh(z)
 
+def _reciprocal(ctx, z):
+    # 1/z with twice the working precision: the inverse functions are
+    # ill-conditioned next to their branch points (z = +-1 or +-i), where
+    # the rounding error of 1/z would be magnified
+    return ctx.fdiv(ctx.one, z, prec=2*ctx.prec)
+
 @defun_wrapped
 def acot(ctx, z):
     if not z:
         return ctx.pi * 0.5
     else:
-        return ctx.atan(ctx.one / z)
+        return ctx.atan(_reciprocal(ctx, z))
 
 @defun_wrapped
-def asec(ctx, z): return ctx.acos(ctx.one / z)
+def asec(ctx, z): return ctx.acos(_reciprocal(ctx, z))
 
 @defun_wrapped
-def acsc(ctx, z): return ctx.asin(ctx.one / z)
+def acsc(ctx, z): return ctx.asin(_reciprocal(ctx, z))
 
 @defun_wrapped
 def acoth(ctx, z):
     if not z:
         return ctx.pi * 0.5j
     else:
-        return ctx.atanh(ctx.one / z)
+        return ctx.atanh(_reciprocal(ctx, z))
 
 
 @defun_wrapped
-def asech(ctx, z): return ctx.acosh(ctx.one / z)
+def asech(ctx, z): return ctx.acosh(_reciprocal(ctx, z))
 
 @defun_wrapped
-def acsch(ctx, z): return ctx.asinh(ctx.one / z)
+def acsch(ctx, z): return ctx.asinh(_reciprocal(ctx, z))
 
 @defun
 def sign(ctx, x):
